@@ -386,3 +386,13 @@ def equiv_under(conds, e1, e2):
     both = _ast.BoolOp(op=_ast.Or(), values=[_ast.BoolOp(op=_ast.And(), values=[e1, e2]),
                                                _ast.BoolOp(op=_ast.And(), values=[_ast.UnaryOp(op=_ast.Not(), operand=e1), _ast.UnaryOp(op=_ast.Not(), operand=e2)])])
     return decide_under(conds, both) is True
+
+
+def always_reached(g, node, it=None):
+    """`node` is executed on every normal (non-exception) path: before the function returns (it is None), or once in every iteration of the
+    loop headed by `it` - and the loop itself is reached on every normal path."""
+    if it is None:
+        return g.dominates([node], g.exit, exc=False)
+    starts = [d for d, l in g.succ[it] if l == "next"]
+    r = g.reach(starts, avoid=[node], exc=False, include_start=True)
+    return it not in r and g.exit not in r and g.dominates([it], g.exit, exc=False)
